@@ -82,7 +82,7 @@ CatalogOK ==
     /\ FullRank(Case.A)
     /\ MEq(KindDense, Case.A)
 MoorePenrose == phase = "solved" => IsMinNormLsq(Case.A, Case.b, X)
-StructuralRuleOK == (phase = "solved" /\ Case.kind # "Dense") => MEq(MMul(RuleMat, Case.b), X)
+StructuralRuleOK == (phase = "solved" /\ Case.kind \notin {"Dense", "Tree"}) => MEq(MMul(RuleMat, Case.b), X)
 Scales == IF "scales" \in DOMAIN Case THEN Case.scales ELSE <<>>
 LawPow == IF "lawpow" \in DOMAIN Case THEN Case.lawpow ELSE 1
 ScalingLawOK ==
